@@ -23,6 +23,7 @@
 
 
 
+#include <xercesc/dom/DOMException.hpp>
 #include <xercesc/dom/DOMImplementation.hpp>
 #include <xercesc/framework/URLInputSource.hpp>
 #include <xercesc/parsers/XercesDOMParser.hpp>
@@ -52,6 +53,7 @@
 #include <xalanc/XercesParserLiaison/Deprecated/XercesDocumentBridge.hpp>
 #endif
 #include <xalanc/XercesParserLiaison/XercesDocumentWrapper.hpp>
+#include <xalanc/XercesParserLiaison/XercesDOMWrapperException.hpp>
 #include <xalanc/XercesParserLiaison/XercesDOMSupport.hpp>
 
 
@@ -239,7 +241,17 @@ XercesParserLiaison::parseXMLStream(
 {
     ensureDOMParser();
 
-    m_domParser->parse(inputSource);
+    try
+    {
+        m_domParser->parse(inputSource);
+    }
+    catch(const xercesc::DOMException&  theException)
+    {
+        // Building the DOM can fail with an exception that callers do not
+        // know about (for example, an unsupported XML version), so map
+        // it to our own DOM exception.
+        throw XercesDOMWrapperException(theException);
+    }
 
     DOMDocument_Type* const theXercesDocument =
         m_domParser->getDocument();
